@@ -2881,6 +2881,11 @@ func (dsc *dataStoreCommand) setRemove(keyName string, members []string) (output
 		if m.remove(member) {
 			removals++
 			dsc.setDirty()
+
+			if m.count == 0 {
+				dsc.ds.data.remove(keyName)
+				break
+			}
 		}
 	}
 
